@@ -225,6 +225,8 @@ SnapshotNotLost ==
   \A s \in DOMAIN snaps \ DOMAIN snaps' :
      (l <= Len(Trace) /\ CmdOf(E.proc) \in RewriteCmds)
         => \/ \E s2 \in DOMAIN snaps' : snaps'[s2].orig \in {s, OrigOf(snaps, s)}
+           \* rolling back a just-saved replacement while the snapshot it was made from is still there
+           \/ (snaps[s].orig # NoSnap /\ snaps[s].orig \in DOMAIN snaps')
            \* `repair snapshots --forget` drops a snapshot that environment damage made unrepairable
            \/ (CmdOf(E.proc) = "repair-snapshots" /\ Reach(snaps[s].tree) \cap aux.baseB # {})
 R_SnapshotNotLost == [][SnapshotNotLost]_storage
